@@ -221,6 +221,12 @@ let handle line =
       let (t, _) = parse_dt (String.split_on_char ' ' (String.concat " " rest)) in
       let (h, opt) = th o t in
       tok_of_str (show o h) ^ "\t" ^ (if opt then "1" else "0")
+  | "himp" :: u :: sc_ :: g :: rest ->
+      (* the typing / collections names the tree imports, and the names its annotation needs *)
+      let o = { uo = bool_of_tok u; sc = bool_of_tok sc_; gc = bool_of_tok g } in
+      let (t, _) = parse_dt (String.split_on_char ' ' (String.concat " " rest)) in
+      let (h, _) = th o t in
+      toks_of_strs (imports_of hint_import_table o t) ^ "\t" ^ toks_of_strs (needs o h)
   | ["imports"; ops] ->
       (* ops separated by | ; each: a/r : from-or-~ : name : alias-or-~ *)
       let mk t = (match String.split_on_char ':' t with
